@@ -21,10 +21,11 @@ GROUPS = {
             ("descendant", ["process_descendant.path"]), ("requery", ["path.requery", "path.injective"])],
     "C04": [("cmp_struct", ["eq.structural", "lt.order"])],
     "C05": [("e2e_filter", ["e2e_filter.members", "e2e_filter.order"])],
-    "C08": [("e2e", ["e2e.no_panic", "e2e.ok"]), ("arith", ["process_index", "process_slice"])],
-    "C10": [("regex", ["regex.match", "regex.search"]), ("e2e_fn", ["e2e_fn.members"])],
-    "C11": [("arith", ["process_index.select", "process_slice.select"])],
-    "C15": [("e2e", ["e2e.view_independent"])],
+    "C08": [("e2e", ["e2e.no_panic", "e2e.ok"]), ("arith", ["process_index.no_panic", "process_slice.no_panic"]), ("regex", ["regex.no_panic"]),
+            ("descendant", ["process_descendant.no_panic"]), ("name_lookup", ["process_key.no_panic"])],
+    "C10": [("regex", ["regex.match", "regex.search", "regex.no_panic"]), ("e2e_fn", ["e2e_fn.members", "e2e_fn.no_panic"])],
+    "C11": [("arith", ["process_index.select", "process_slice.select", "process_index.no_panic", "process_slice.no_panic"])],
+    "C15": [("e2e", ["e2e.view_independent"]), ("cmp_struct", ["eq.structural", "lt.order"])],
 }
 # Verus unit -> bounded groups that can produce a failing input for it
 CEX_GROUPS = {
